@@ -2,3 +2,6 @@
 FUNCS = ["Scheduler.aio_start", "Scheduler.aio_submit", "Job.dependencychanged", "Dependency.check", "JobDependency.status", "updatedependencies", "ConfigInformation.updatedependencies"]
 LEVEL = "proof"
 TRUSTED = []
+
+from bounded.wire import run_c04_c07
+BOUNDED = [("start order on real small DAGs", run_c04_c07)]
